@@ -31,6 +31,9 @@ struct World {
     next_cid: usize,
     /// connections suspended in a delivery: cid -> the `deliver` stimulus that completes it
     blocked: BTreeMap<usize, Value>,
+    /// connection-side phase of every request a scripted connection has read: (cid, id) -> "slot" (waiting
+    /// for a stream of the multiplexer) | "neg" (negotiating); environment bookkeeping only
+    phase: BTreeMap<(usize, usize), &'static str>,
     /// random runs: the user may drop a protocol in this execution
     dropper: bool,
     fault: String,
@@ -43,7 +46,7 @@ impl World {
     fn new(ka: &[bool], fault: &str) -> Self {
         let h = ServiceHarness::new(ka);
         let peers = PEERS.iter().map(|n| (n.to_string(), PeerId::random())).collect();
-        World { h, peers, conns: BTreeMap::new(), next_cid: 1, blocked: BTreeMap::new(), dropper: false, fault: fault.to_string(), panicked: false, out: vec![] }
+        World { h, peers, conns: BTreeMap::new(), next_cid: 1, blocked: BTreeMap::new(), phase: BTreeMap::new(), dropper: false, fault: fault.to_string(), panicked: false, out: vec![] }
     }
     fn peer(&self, n: &str) -> PeerId {
         self.peers.iter().find(|(k, _)| k == n).expect("peer").1
@@ -256,18 +259,34 @@ impl World {
                 if self.st(c) != "live" || self.blocked.contains_key(&c) {
                     return false;
                 }
+                let phase = &mut self.phase;
                 catch(|| self.h.next_command(c)).map(|r| {
                     r.map(|cmd| match cmd {
-                        Cmd::Open { protocol, id, cid, .. } => json!({"k": "open", "q": protocol, "id": id, "cc": cid}),
+                        Cmd::Open { protocol, id, cid, .. } => {
+                            phase.insert((c, id), "slot");
+                            json!({"k": "open", "q": protocol, "id": id, "cc": cid})
+                        }
                         Cmd::ForceClose => json!({"k": "force"}),
                         Cmd::Closed => json!({"k": "none"}),
                         Cmd::Pending => json!({"k": "pending"}),
                     })
                 })
             }
+            "slot" => {
+                let (c, id) = (cid.unwrap(), s["id"].as_u64().unwrap() as usize);
+                if self.st(c) != "live" || self.blocked.contains_key(&c) || self.phase.get(&(c, id)) != Some(&"slot") {
+                    return false;
+                }
+                self.phase.insert((c, id), "neg");
+                Ok(Some(json!({"k": "ok"})))
+            }
             "reply" => {
                 let (c, id) = (cid.unwrap(), s["id"].as_u64().unwrap() as usize);
                 let Some((rq, _)) = self.h.pending_opens(c).into_iter().find(|(_, i)| *i == id) else { return false };
+                // a substream can only be reported open after its negotiation: the stream slot comes first
+                if s["ok"].as_bool().unwrap() && self.phase.get(&(c, id)) == Some(&"slot") && !self.apply(&json!({"a": "slot", "c": c, "id": id})) {
+                    return false;
+                }
                 let full = s.get("full").and_then(|x| x.as_bool()).unwrap_or(false) && self.h.is_live(rq);
                 // one sender at a time waits for an inbox; an ordinary delivery needs a free slot
                 if self.st(c) != "live" || self.blocked.contains_key(&c) || self.blocked.values().any(|d| d["q"] == rq) || (!full && !self.room(rq)) {
@@ -276,6 +295,7 @@ impl World {
                 let ok = s["ok"].as_bool().unwrap();
                 stim["full"] = json!(full);
                 stim["q"] = json!(rq);
+                self.phase.remove(&(c, id));
                 let r = catch(|| self.h.reply(c, id, ok, full)).map(|r| Some(World::delivery(r)));
                 if let Ok(Some(v)) = &r {
                     if v["k"] == "blocked" {
@@ -518,6 +538,9 @@ impl World {
                     v.push(json!({"a": "cmd", "c": c}));
                     v.push(json!({"a": "cmd", "c": c}));
                     for (_, id) in self.h.pending_opens(*c) {
+                        if self.phase.get(&(*c, id)) == Some(&"slot") {
+                            v.push(json!({"a": "slot", "c": c, "id": id}));
+                        }
                         v.push(json!({"a": "reply", "c": c, "id": id, "ok": rng.gen_bool(0.5), "full": rng.gen_bool(0.12)}));
                         v.push(json!({"a": "reply", "c": c, "id": id, "ok": rng.gen_bool(0.5), "full": false}));
                     }
